@@ -198,6 +198,76 @@ def explore_chunk(args):
     return out
 
 
+def hints_chunk(args):
+    """ExecutionProofExp.from_proof_hints on EVERY event sequence of the given length (chained or not), with the
+    configurations recorded in the hints either truthful or not: what is accepted, and what is claimed, must depend only
+    on the rule applications -- a step is accepted iff it starts where the previous rule application ended."""
+    sem_name, init_idx, seqs = args
+    from . import bridge
+    from proof_generation.k.execution_proof_generation import ExecutionProofExp
+    from proof_generation.k.kore_convertion.rewrite_steps import RewriteStepExpression
+    out = {'hint_runs': 0, 'hint_accepted': 0, 'hint_refused': 0, 'viol': []}
+    semantics, events, inits = SEMANTICS[sem_name]()
+    exp = [expected_step(rule, subst) for rule, subst in events]
+    sides = [lhs_rhs_of(t) for t in exp]
+    # repository patterns for the configurations an event starts from / reaches (only used to fill the hints' fields)
+    lhs_pat, rhs_pat = {}, {}
+    for e, (rule, subst) in enumerate(events):
+        try:
+            m = ExecutionProofExp(semantics, inits[init_idx])
+            full = rule.pattern.instantiate(dict(subst))
+            from proof_generation.proofs.kore import kore_rewrites
+            _, l, r = kore_rewrites.assert_matches(full)
+            lhs_pat[e], rhs_pat[e] = l, r
+        except Exception:  # noqa: BLE001
+            lhs_pat[e] = rhs_pat[e] = inits[init_idx]
+    init_t = bridge.expand(inits[init_idx])
+    for seq in seqs:
+        # reference outcome: chain from the initial configuration by the rule applications alone
+        cur = init_t
+        want_claims = []
+        ok = True
+        for e in seq:
+            if sides[e][0] != cur:
+                ok = False
+                break
+            want_claims.append(exp[e])
+            cur = sides[e][1]
+        for mode in ('truthful', 'after_is_next_start', 'after_is_initial', 'before_is_own_start'):
+            hints = []
+            for i, e in enumerate(seq):
+                rule, subst = events[e]
+                before = inits[init_idx] if i == 0 else (lhs_pat[e] if mode == 'before_is_own_start' else rhs_pat[seq[i - 1]])
+                after = rhs_pat[e]
+                if mode == 'after_is_next_start' and i + 1 < len(seq):
+                    after = lhs_pat[seq[i + 1]]
+                elif mode == 'after_is_initial':
+                    after = inits[init_idx]
+                hints.append(RewriteStepExpression(before, after, rule, dict(subst)))
+            out['hint_runs'] += 1
+            try:
+                m = ExecutionProofExp.from_proof_hints(iter(hints), semantics)
+                got = [bridge.expand(c) for c in m.get_claims()]
+                accepted = True
+            except Exception:  # noqa: BLE001
+                accepted = False
+            desc = {'events': list(seq), 'recorded_configurations': mode}
+            if accepted and not ok:
+                out['viol'].append(({'kind': 'unchained_hints_accepted', 'semantics': sem_name, 'recorded': mode}, desc,
+                                    f'{sem_name}: from_proof_hints accepted the trace {list(seq)} ({mode}) although a step does not start where the previous rule application ended'))
+            elif not accepted and ok:
+                out['viol'].append(({'kind': 'chained_hints_refused', 'semantics': sem_name, 'recorded': mode}, desc,
+                                    f'{sem_name}: from_proof_hints refused the chained trace {list(seq)} ({mode})'))
+            elif accepted:
+                out['hint_accepted'] += 1
+                if got != want_claims:
+                    out['viol'].append(({'kind': 'hint_claims_wrong', 'semantics': sem_name, 'recorded': mode}, desc,
+                                        f'{sem_name}: from_proof_hints on {list(seq)} ({mode}) claims something else than the instantiated rewrites in order'))
+            else:
+                out['hint_refused'] += 1
+    return out
+
+
 def _serialise(sem_name, init_idx, hist, h, out):
     """end to end: both optimise settings, reference machine + real checker, all claims discharged"""
     from . import bridge
@@ -246,7 +316,7 @@ def kore_definition():
     f = lambda t: K.App('Lblf', (), (t,))  # noqa: E731
     g = lambda t, u: K.App('Lblg', (), (t, u))  # noqa: E731
     sentences = (
-        K.SortDecl('SortS'), K.SortDecl('SortKCell'),
+        K.SortDecl('SortS'), K.SortDecl('SortKCell'), K.SortDecl('SortOther'),
         K.SymbolDecl(K.Symbol('Lbla'), (), S, ctor), K.SymbolDecl(K.Symbol('Lblb'), (), S, ctor),
         K.SymbolDecl(K.Symbol('Lblf'), (S,), S, ctor), K.SymbolDecl(K.Symbol('Lblg'), (S, S), S, ctor),
         K.SymbolDecl(K.Symbol("Lbl'-LT-'k'-GT-'"), (S,), C, ctor + (K.App('cell'),)),
@@ -256,16 +326,26 @@ def kore_definition():
         K.Axiom((), K.Top(S)),                    # an axiom that is neither rewrite nor equation: only advances the ordinal
         rule(g(x, y), g(y, x)),                   # X, Y again: fresh scope per axiom
         rule(f(x), K.App('inj', (S, S), (x,))),
+        # two sort variables in one axiom (and element variables of those sorts)
+        K.SymbolDecl(K.Symbol('pairc', (K.SortVar('S1'), K.SortVar('S2'))), (K.SortVar('S1'), K.SortVar('S2')), C, (K.App('functional'),)),
+        K.Axiom((K.SortVar('S1'), K.SortVar('S2')),
+                K.Rewrites(C, K.And(C, (K.App('pairc', (K.SortVar('S1'), K.SortVar('S2')), (K.EVar('VarP', K.SortVar('S1')), K.EVar('VarQ', K.SortVar('S2')))), top)),
+                           K.And(C, (K.App('pairc', (K.SortVar('S2'), K.SortVar('S1')), (K.EVar('VarQ', K.SortVar('S2')), K.EVar('VarP', K.SortVar('S1')))), top)))),
+        K.Axiom((K.SortVar('S1'), K.SortVar('S2'), K.SortVar('S3')),
+                K.Rewrites(C, K.And(C, (K.App('pairc', (K.SortVar('S1'), K.SortVar('S2')), (K.EVar('VarP', K.SortVar('S1')), K.App('inj', (K.SortVar('S3'), K.SortVar('S2')), (K.EVar('VarR', K.SortVar('S3')),)))), top)),
+                           K.And(C, (K.App('pairc', (K.SortVar('S3'), K.SortVar('S1')), (K.EVar('VarR', K.SortVar('S3')), K.EVar('VarP', K.SortVar('S1')))), top)))),
     )
     return K.Definition((K.Module('M', sentences),)), {'S': S, 'C': C, 'f': f, 'g': g, 'cell': cell, 'x': x, 'y': y, 'z': z}
 
 
 def kore_subst(t, s):
+    """s: element-variable names -> Kore terms, and '$'+sort-variable names -> Kore sorts"""
     import pyk.kore.syntax as K
     if isinstance(t, K.EVar):
         return s.get(t.name, t)
     if isinstance(t, K.App):
-        return K.App(t.symbol, t.sorts, tuple(kore_subst(a, s) for a in t.args))
+        sorts = tuple(s.get('$' + x.name, x) if isinstance(x, K.SortVar) else x for x in t.sorts)
+        return K.App(t.symbol, sorts, tuple(kore_subst(a, s) for a in t.args))
     if isinstance(t, K.And):
         return K.And(t.sort, tuple(kore_subst(a, s) for a in t.ops))
     if isinstance(t, K.Rewrites):
@@ -297,12 +377,16 @@ def conversion_check():
         pre = K.Rewrites(ax.pattern.sort, ax.pattern.left.ops[0], ax.pattern.right.ops[0])
         # variables: equal names -> equal metavariables, distinct -> distinct (within this axiom)
         names = []
+        sortvars = []
 
         def collect(t):
             if isinstance(t, K.EVar):
                 if t.name not in names:
                     names.append(t.name)
             elif isinstance(t, K.App):
+                for x in t.sorts:
+                    if isinstance(x, K.SortVar) and x.name not in sortvars:
+                        sortvars.append(x.name)
                 for x in t.args:
                     collect(x)
             elif isinstance(t, K.Rewrites):
@@ -311,9 +395,40 @@ def conversion_check():
         collect(pre)
         mvs = refpat_mvs(bridge.expand(rule.pattern))
         out['evals'] += 1
-        if len(mvs) != len(names):
+        if len(mvs) != len(names) + len(sortvars):
             out['viol'].append(({'kind': 'variable_count', 'ordinal': ordinal},
-                                f'axiom {ordinal}: {len(names)} distinct Kore variables {names} but {len(mvs)} metavariables {sorted(mvs)}'))
+                                f'axiom {ordinal}: {len(names) + len(sortvars)} distinct Kore variables {names + sortvars} but {len(mvs)} metavariables {sorted(mvs)}'))
+            continue
+        if sortvars:
+            # sort variables are not part of convert_substitutions' interface: compare by matching. Every assignment of
+            # (pairwise different) ground sorts and terms gives a Kore instance whose conversion must be an instance of
+            # the converted rule, under a substitution that agrees with convert_substitutions on the element variables
+            from .c13 import ref_match
+            sorts = [e['S'], e['C'], K.SortApp('SortOther')]
+            for svals in itertools.permutations(sorts, len(sortvars)):
+                for vals in itertools.permutations(ground, len(names)):
+                    sub = dict(zip(names, vals))
+                    sub.update({'$' + n: v for n, v in zip(sortvars, svals)})
+                    out['evals'] += 1
+                    out['nontrivial'] += 1
+                    try:
+                        inst = bridge.expand(sem.convert_pattern(kore_subst(pre, sub)))
+                        conv_s = {k: bridge.expand(v) for k, v in sem.convert_substitutions(dict(zip(names, vals)), ordinal).items()}
+                    except Exception as ex:  # noqa: BLE001
+                        out['viol'].append(({'kind': 'conversion_raises', 'ordinal': ordinal}, f'axiom {ordinal} with sort variables: {type(ex).__name__}: {str(ex)[:120]}'))
+                        break
+                    m = ref_match(bridge.expand(rule.pattern), inst, {})
+                    if not isinstance(m, dict):
+                        out['viol'].append(({'kind': 'sort_instance_not_matched', 'ordinal': ordinal},
+                                            f'axiom {ordinal}: converting the rule at sorts {[x.name for x in svals]} does not give an instance of the converted rule (distinct variables merged?)'))
+                        break
+                    if any(m.get(k) != v for k, v in conv_s.items()) or len({repr(v) for v in m.values()}) != len(mvs):
+                        out['viol'].append(({'kind': 'substitution_commutes', 'ordinal': ordinal},
+                                            f'axiom {ordinal}: the instance at sorts {[x.name for x in svals]} is matched by {m}, convert_substitutions gives {conv_s}'))
+                        break
+                else:
+                    continue
+                break
             continue
         for vals in itertools.product(ground, repeat=len(names)):
             s = dict(zip(names, vals))
@@ -331,6 +446,100 @@ def conversion_check():
                 out['viol'].append(({'kind': 'substitution_commutes', 'ordinal': ordinal},
                                     f'axiom {ordinal}: convert(rule).instantiate(convert(s)) != convert(s(rule)) for s={ {k: repr(v)[:30] for k, v in s.items()} }'))
                 break
+    return out
+
+
+def kore_alphabet():
+    import pyk.kore.syntax as K
+    from proof_generation.k.kore_convertion.language_semantics import LanguageSemantics
+    defn, e = kore_definition()
+    sem = LanguageSemantics.from_kore_definition(defn)
+    C = e['C']
+    a, b = K.App('Lbla'), K.App('Lblb')
+    axioms = [x for x in defn.modules[0].sentences if isinstance(x, K.Axiom)]
+    events = []
+    for ordinal, ax in enumerate(axioms):
+        if not isinstance(ax.pattern, K.Rewrites) or ax.vars:
+            continue
+        l, r = ax.pattern.left.ops[0], ax.pattern.right.ops[0]
+        names = []
+
+        def collect(t):
+            if isinstance(t, K.EVar):
+                if t.name not in names:
+                    names.append(t.name)
+            elif isinstance(t, K.App):
+                for x in t.args:
+                    collect(x)
+        collect(l)
+        collect(r)
+        pool = [a, b, e['f'](a)] if len(names) == 1 else [a, b]
+        for vals in itertools.product(pool, repeat=len(names)):
+            events.append((ordinal, dict(zip(names, vals)), l, r))
+    return defn, e, sem, events
+
+
+def kore_trace_chunk(args):
+    """the pipeline users run: LLVMRewriteTrace (rule events with Kore substitutions, interleaved with configurations)
+    -> get_proof_hints -> from_proof_hints, on every event sequence of the given lengths over the stub Kore definition"""
+    init_idx, seqs = args
+    from . import bridge
+    import pyk.kore.syntax as K
+    from proof_generation.k.execution_proof_generation import ExecutionProofExp
+    from proof_generation.k.kore_convertion.language_semantics import LanguageSemantics
+    from proof_generation.k.kore_convertion.rewrite_steps import get_proof_hints
+    from proof_generation.llvm_proof_hint import LLVMRewriteTrace, LLVMRuleEvent
+    out = {'kore_runs': 0, 'kore_accepted': 0, 'kore_refused': 0, 'viol': []}
+    defn, e, sem, events = kore_alphabet()
+    C = e['C']
+    a, b = K.App('Lbla'), K.App('Lblb')
+    inits = [e['cell'](e['f'](a)), e['cell'](e['g'](a, b))]
+    init = inits[init_idx]
+    for seq in seqs:
+        cur = init
+        ok = True
+        want = []
+        for i in seq:
+            ordinal, sub, l, r = events[i]
+            li, ri = kore_subst(l, sub), kore_subst(r, sub)
+            if li != cur:
+                ok = False
+                break
+            want.append(bridge.expand(sem.convert_pattern(K.Rewrites(C, li, ri))))
+            cur = ri
+        for mode in ('truthful', 'configurations_are_initial', 'configurations_are_next_start'):
+            trace = []
+            for k, i in enumerate(seq):
+                ordinal, sub, l, r = events[i]
+                trace.append(LLVMRuleEvent(ordinal, tuple(sub.items())))
+                cfg = kore_subst(r, sub)
+                if mode == 'configurations_are_initial':
+                    cfg = init
+                elif mode == 'configurations_are_next_start' and k + 1 < len(seq):
+                    o2, s2, l2, _ = events[seq[k + 1]]
+                    cfg = kore_subst(l2, s2)
+                trace.append(cfg)
+            out['kore_runs'] += 1
+            desc = {'events': [(events[i][0], {k: repr(v) for k, v in events[i][1].items()}) for i in seq], 'recorded_configurations': mode}
+            try:
+                hints = get_proof_hints(LLVMRewriteTrace((), init, tuple(trace)), sem)
+                m = ExecutionProofExp.from_proof_hints(hints, sem)
+                got = [bridge.expand(c) for c in m.get_claims()]
+                accepted = True
+            except Exception:  # noqa: BLE001
+                accepted = False
+            if accepted and not ok:
+                out['viol'].append(({'kind': 'unchained_trace_accepted', 'recorded': mode}, desc,
+                                    f'Kore trace {desc["events"]} ({mode}) accepted although a step does not start where the previous rule application ended'))
+            elif not accepted and ok:
+                out['viol'].append(({'kind': 'chained_trace_refused', 'recorded': mode}, desc, f'Kore trace {desc["events"]} ({mode}) is chained but was refused'))
+            elif accepted:
+                out['kore_accepted'] += 1
+                if got != want:
+                    out['viol'].append(({'kind': 'trace_claims_wrong', 'recorded': mode}, desc,
+                                        f'Kore trace {desc["events"]} ({mode}): the claims are not the converted instantiated rewrites in order'))
+            else:
+                out['kore_refused'] += 1
     return out
 
 
@@ -375,17 +584,43 @@ def main(argv=None) -> int:
                 frontier = nxt
                 if not frontier:
                     break
+    # traces given as proof hints
+    hlen = 3 if thorough else 2
+    hwork = []
+    for sem_name in SEMANTICS:
+        _, events, inits = SEMANTICS[sem_name]()
+        n_ev = len(events)
+        seqs = [t for k in range(1, hlen + 1) for t in itertools.product(range(n_ev), repeat=k)]
+        for init_idx in range(len(inits)):
+            for ch in par.chunks(seqs, 8):
+                hwork.append((sem_name, init_idx, ch))
+    for out in par.pmap(hints_chunk, hwork):
+        for k, v in out.items():
+            if k == 'viol':
+                for sig, d, what in v:
+                    chk.violation(sig, {'signature': sig, 'case': d}, what)
+            else:
+                agg[k] = agg.get(k, 0) + v
+    n_kore_events = len(kore_alphabet()[3])
+    kseqs = [t for k in range(1, hlen + 1) for t in itertools.product(range(n_kore_events), repeat=k)]
+    for out in par.pmap(kore_trace_chunk, [(ii, ch) for ii in (0, 1) for ch in par.chunks(kseqs, 16)]):
+        for k, v in out.items():
+            if k == 'viol':
+                for sig, d, what in v:
+                    chk.violation(sig, {'signature': sig, 'case': d}, what)
+            else:
+                agg[k] = agg.get(k, 0) + v
     conv = conversion_check()
     for sig, what in conv['viol']:
         chk.violation(sig, {'signature': sig}, what)
     agg['conversion_evals'] = conv['evals']
     pyrun.cleanup()
     chk.set('states', states)
-    chk.set('transitions', agg.get('transitions', 0))
+    chk.set('transitions', agg.get('transitions', 0) + agg.get('hint_runs', 0) + agg.get('kore_runs', 0))
     chk.set('traces_validated_against_impl', agg.get('serialised', 0))
     chk.set('exhaustive', True)
     chk.set('detail', agg)
-    chk.set('bounds', {'trace_length': depth, 'semantics': list(SEMANTICS), 'kore_axioms_converted': 4})
+    chk.set('bounds', {'trace_length': depth, 'semantics': list(SEMANTICS), 'kore_axioms_converted': 6})
     chk.sample({'semantics': 'vars', 'history': [0, 6], 'meaning': 'k(f(a)) => k(g(a,a)) => k(f(a))'})
     chk.assume('mc/stubs/pyk/kore/syntax.py stands in for pyk.kore.syntax (absent from the pinned environment); differences between the stub and the real library are outside the check')
     chk.assume('every (rule, substitution) event of the alphabet is tried from every reached state; a step is expected to be accepted iff its instantiated left-hand side equals the configuration reached')
